@@ -167,13 +167,21 @@ def content_has_markup(sp):
     return any(c in (s.get("c") or "") for _, s in treegen.spec_nodes(sp) for c in "<>&")
 
 
-def check(sp, ops):
-    """ops: list of (op name, node index)"""
-    case = {"tree": sp, "ops": [list(o) for o in ops]}
+def check(sp, ops, pre=None):
+    """ops: list of (op name, node index); pre: how the registry was shaped before the read-only calls"""
+    case = {"tree": sp, "ops": [list(o) for o in ops], "pre": pre}
     Node.store.clear()
     root = treegen.build(sp)
     cp = root.copy()
     nodes_ = treegen.nodes(root)
+    if pre == "loaded-twice":
+        # the same document loaded a second time: its nodes carry the same ids, the registry now points at them
+        twin = metapype_io.from_json(metapype_io.to_json(root))
+        keep_alive = twin   # noqa: F841  (held until the end of the check)
+    elif pre == "unregistered":
+        for n in nodes_[1::3]:
+            if n.id in Node.store:
+                Node.delete_node_instance(n.id, children=False)
     before = snapshot.deep([root, cp])
     before_store = snapshot.store()
     results = {}
@@ -225,17 +233,20 @@ def cases(draw):
     ops = draw(st.lists(st.tuples(st.sampled_from(OP_NAMES), st.integers(0, 30)), min_size=3, max_size=12))
     if draw(st.booleans()) and ops:
         ops.append(ops[draw(st.integers(0, len(ops) - 1))])
-    return sp, ops
+    pre = draw(st.sampled_from([None, None, "loaded-twice", "unregistered"]))
+    return sp, ops, pre
 
 
 def hyp_shard(ctx, shard):
     n = (2400 if ctx.quick else 120000) // 16
 
     def body(c):
-        sp, ops = c
-        size = check(sp, ops)
+        sp, ops, pre = c
+        size = check(sp, ops, pre)
+        if pre:
+            ctx.count("registry-pre-state:" + pre)
         markup = content_has_markup(sp)
-        ctx.note(key=c, nontrivial=markup or (size >= 5 and len(ops) >= 4),
+        ctx.note(key=(sp, ops, pre), nontrivial=markup or (size >= 5 and len(ops) >= 4),
                  cls=["content-with-markup" if markup else "plain-content"] + ["op:" + o for o, _ in ops])
         if markup and size <= 6:
             ctx.sample("tree+ops", {"tree": sp, "ops": ops})
@@ -249,7 +260,7 @@ def run(ctx):
 
 def replay(case):
     try:
-        check(case["tree"], [tuple(o) for o in case["ops"]])
+        check(case["tree"], [tuple(o) for o in case["ops"]], case.get("pre"))
     except Violation as v:
         return f"{v.bucket}: {v.message}"
     return None
